@@ -1,6 +1,6 @@
 (** Non-vacuity for C12: readers satisfying the hypotheses, and concrete runs of the model. *)
 From Coq Require Import NArith List Lia.
-From FF Require Import Lib.Word Gen.Consts_device_acpi_aml Aml.Stream Aml.Lex Aml.LexProofs Aml.Tree Aml.TreeSpec Aml.Parser Aml.ParserProofs Aml.ParserProofsTop Aml.ParserTotalBase Aml.ParserTotalFirst Aml.ParserTotalConn Aml.ParserTotalTop Aml.ParserTotalNonNamed Aml.ParserTotalCalls Aml.ParserTotalReloc Aml.ParserTotalMerge Aml.ParserTotalResolve Aml.ParserTotalLex Aml.ParserTotalTree Aml.ParserTotalDefer Aml.ParserTotalDeferW Aml.ParserTotalDeferV.
+From FF Require Import Lib.Word Gen.Consts_device_acpi_aml Aml.Stream Aml.Lex Aml.LexProofs Aml.Tree Aml.TreeSpec Aml.Parser Aml.ParserProofs Aml.ParserProofsTop Aml.ParserTotalBase Aml.ParserTotalFirst Aml.ParserTotalConn Aml.ParserTotalTop Aml.ParserTotalNonNamed Aml.ParserTotalCalls Aml.ParserTotalReloc Aml.ParserTotalMerge Aml.ParserTotalResolve Aml.ParserTotalLex Aml.ParserTotalTree Aml.ParserTotalDefer Aml.ParserTotalDeferW Aml.ParserTotalDeferV Aml.ParserTotalTyped.
 Import ListNotations.
 Local Open Scope N_scope.
 
@@ -270,4 +270,16 @@ Example C12_deferred_runs :
   fst (fst (load [[0x14; 0x08; 0x4d; 0x54; 0x48; 0x30; 0x01; 0xa4; 0x68;
                    0x08; 0x42; 0x55; 0x46; 0x30; 0x11; 0x05; 0x0a; 0x02; 0xaa; 0xbb;
                    0x14; 0x14; 0x4d; 0x54; 0x48; 0x31; 0x00; 0xa2; 0x0d; 0x4d; 0x54; 0x48; 0x30; 0x01; 0x70; 0x4d; 0x54; 0x48; 0x30; 0x00; 0x60]])) = 0.
+Proof. vm_compute. reflexivity. Qed.
+
+(** parse_head returns (so C12_parse_total_partial_typed_head is not vacuous): the first four passes on a table with a
+    method, a call of it by name and a Scope directive, over the default scopes *)
+Example C12_typed_head_runs :
+  match CreateDefaultScopes (@NewObjectTree value) 0 with
+  | Ok t => match parse_head 200 (init_state t [] 1 (table_image [0x14; 0x08; 0x4d; 0x54; 0x48; 0x30; 0x01; 0xa4; 0x68;
+                                                            0x4d; 0x54; 0x48; 0x30; 0x01;
+                                                            0x10; 0x05; 0x5f; 0x53; 0x42; 0x5f])) with
+            | Ok (b, _) => b = true | _ => False end
+  | _ => False
+  end.
 Proof. vm_compute. reflexivity. Qed.
